@@ -31,6 +31,9 @@ pub enum Scenario {
     DisableEnable,
     StopRestart,
     ResetRefeature,
+    /// GET_VRING_BASE, then the ring is started again with the *same* kick eventfd: kicks raised on it are not dropped
+    /// with a descriptor, so every one of them must be handled (before the stop or after the restart)
+    StopRestartSameFd,
 }
 
 #[derive(Serialize, Deserialize, Debug, Clone, Copy, Hash, PartialEq, Eq)]
@@ -49,6 +52,10 @@ pub struct Case {
     /// (the enabling message overtakes a worker that is in the middle of a wake-up)
     #[serde(default)]
     pub hold: bool,
+    /// between the reply to the disabling message and the enabling message the front end also sends SET_VRING_CALL
+    /// (a message that neither starts nor enables a ring) and the guest kicks once more
+    #[serde(default)]
+    pub call_mid: bool,
 }
 
 pub const F9A_SIG: &str = "C12/F9a-handler-entered-after-disable-reply-worker-past-read_kick";
@@ -150,7 +157,7 @@ fn run_generic<V: VringT<GM> + Clone + Send + Sync + 'static>(ctx: &mut Ctx, c: 
 
         let (dis_code, dis_body): (u32, Vec<u8>) = match c.scenario {
             Scenario::DisableEnable => (fe::SET_VRING_ENABLE, spec::b_vring_state(0, 0)),
-            Scenario::StopRestart => (fe::GET_VRING_BASE, spec::b_vring_state(0, 0)),
+            Scenario::StopRestart | Scenario::StopRestartSameFd => (fe::GET_VRING_BASE, spec::b_vring_state(0, 0)),
             Scenario::ResetRefeature => (fe::RESET_DEVICE, vec![]),
         };
         let sock = cl.sock.as_raw_fd();
@@ -243,11 +250,23 @@ fn run_generic<V: VringT<GM> + Clone + Send + Sync + 'static>(ctx: &mut Ctx, c: 
             trace.push(format!("hold:{}", worker_parked_at.unwrap_or("?")));
             ctx.class(&format!("hold_at_{}", worker_parked_at.unwrap_or("?")));
         }
+        if c.call_mid && !c.hold {
+            let callfd = new_eventfd();
+            if cl.ack(fe::SET_VRING_CALL, &spec::b_u64(0), &[callfd.as_raw_fd()]).map_err(|e| format!("SET_VRING_CALL while inactive: {e}"))? != 0 {
+                return Err("SET_VRING_CALL refused".into());
+            }
+            kicks.push(sched.mark("kick"));
+            k1.write(1).map_err(|e| e.to_string())?;
+            trace.push("mid:SET_VRING_CALL+K".into());
+            ctx.class("call_and_kick_while_inactive");
+            settle();
+        }
         let enable_at = sched.mark("enable_sent");
         let k2 = new_eventfd();
         let r = match c.scenario {
             Scenario::DisableEnable => cl.ack(fe::SET_VRING_ENABLE, &spec::b_vring_state(0, 1), &[]),
             Scenario::StopRestart => cl.ack(fe::SET_VRING_KICK, &spec::b_u64(0), &[k2.as_raw_fd()]),
+            Scenario::StopRestartSameFd => cl.ack(fe::SET_VRING_KICK, &spec::b_u64(0), &[k1.as_raw_fd()]),
             Scenario::ResetRefeature => cl.ack(fe::SET_FEATURES, &spec::b_u64(1 << 32), &[]),
         };
         if r.map_err(|e| format!("enabling message: {e}"))? != 0 {
@@ -316,7 +335,7 @@ fn run_generic<V: VringT<GM> + Clone + Send + Sync + 'static>(ctx: &mut Ctx, c: 
             }
             if read_before && ctx.known(F9A_SIG) {
                 ctx.class("known_F9a");
-            } else if !read_before && c.scenario == Scenario::StopRestart && woken_before_read_after && ctx.known(F9C_SIG) {
+            } else if !read_before && matches!(c.scenario, Scenario::StopRestart | Scenario::StopRestartSameFd) && woken_before_read_after && ctx.known(F9C_SIG) {
                 ctx.class("known_F9c");
             } else {
                 return Err(format!(
@@ -394,8 +413,8 @@ fn words(nw: usize, nc: usize, with_k: bool) -> Vec<Vec<Step>> {
 
 pub fn run(ctx: &mut Ctx) {
     ctx.rule = "all words over {W: worker advances to its next hold point, C: control path advances (send, after_state_change, after_epoll_update, \
-                reply read), K: one more guest kick} with 4 W and 3 C steps and at most one K, for scenarios disable/enable, stop/restart, \
-                reset/re-feature, on VringMutex and VringRwLock rings; each word runs on a fresh daemon with one ring that is started, enabled \
+                reply read), K: one more guest kick} with 4 W and 3 C steps and at most one K, for scenarios disable/enable, stop/restart (new or same kick eventfd), \
+                reset/re-feature (optionally with SET_VRING_CALL and a further kick while the ring is inactive), on VringMutex and VringRwLock rings; each word runs on a fresh daemon with one ring that is started, enabled \
                 and kicked once; every word is run twice: the worker continues before the enabling message is sent, or it stays parked where the word left it until the enabling message has been acknowledged. A party that cannot advance (asleep without being parked) makes that step a no-op. Non-trivial = a schedule in \
                 which a control step lies strictly between two worker steps of the same wake-up; distinct by the trace actually realised."
         .into();
@@ -410,19 +429,28 @@ pub fn run(ctx: &mut Ctx) {
     for scenario in [Scenario::DisableEnable, Scenario::StopRestart, Scenario::ResetRefeature] {
         for rwlock in [false, true] {
             for w in words(4, 3, with_k) {
-                space.push(Case { scenario, rwlock, word: w.clone(), hold: false });
+                space.push(Case { scenario, rwlock, word: w.clone(), hold: false, call_mid: false });
                 // the same word with the worker held across the enabling message (only words that can leave the worker
                 // parked inside its wake-up: the last worker step is not the fourth)
-                space.push(Case { scenario, rwlock, word: w, hold: true });
+                space.push(Case { scenario, rwlock, word: w, hold: true, call_mid: false });
             }
+        }
+    }
+    // restart on the same kick eventfd, and a SET_VRING_CALL + kick between the disabling reply and the enabling message
+    for (wi, w) in words(4, 3, with_k).into_iter().enumerate() {
+        let rwlock = wi % 2 == 0;
+        space.push(Case { scenario: Scenario::StopRestartSameFd, rwlock, word: w.clone(), hold: false, call_mid: false });
+        space.push(Case { scenario: Scenario::StopRestartSameFd, rwlock, word: w.clone(), hold: true, call_mid: false });
+        for scenario in [Scenario::DisableEnable, Scenario::StopRestart, Scenario::ResetRefeature, Scenario::StopRestartSameFd] {
+            space.push(Case { scenario, rwlock: !rwlock, word: w.clone(), hold: false, call_mid: true });
         }
     }
     if ctx.tier == crate::engine::Tier::Thorough {
         // longer words: two wake-ups
         for scenario in [Scenario::DisableEnable, Scenario::ResetRefeature] {
             for w in words(6, 3, false) {
-                space.push(Case { scenario, rwlock: true, word: w.clone(), hold: false });
-                space.push(Case { scenario, rwlock: true, word: w, hold: true });
+                space.push(Case { scenario, rwlock: true, word: w.clone(), hold: false, call_mid: false });
+                space.push(Case { scenario, rwlock: true, word: w, hold: true, call_mid: false });
             }
         }
     }
